@@ -97,10 +97,17 @@ public:
 			this->IPhreeqc::error_msg("ERROR: simulated stop (budget exceeded)\n", true);
 		}
 	}
-	virtual void output_msg(const char *s) { tick(M_OUT); IPhreeqc::output_msg(s); }
-	virtual void log_msg(const char *s) { tick(M_LOG); IPhreeqc::log_msg(s); }
-	virtual void punch_msg(const char *s) { tick(M_PUNCH); IPhreeqc::punch_msg(s); }
+	// A switch point right after every sink call: a thread can be parked between the formatting of one field and whatever
+	// follows, which is where scratch state shared between instances (static buffers of the formatting helpers) would show.
+	// and, for clients that asked for it (op "gate"), a rendezvous right before: all threads then enter the same sink one after the other.
+	virtual void output_msg(const char *s) { tick(M_OUT); sim_gate(); IPhreeqc::output_msg(s); sim_switch_point(SW_API); }
+	virtual void log_msg(const char *s) { tick(M_LOG); IPhreeqc::log_msg(s); sim_switch_point(SW_API); }
+	virtual void punch_msg(const char *s) { tick(M_PUNCH); sim_gate(); IPhreeqc::punch_msg(s); sim_switch_point(SW_API); }
 	virtual void screen_msg(const char *s) { tick(M_SCREEN); IPhreeqc::screen_msg(s); }
+	virtual void fpunchf(const char *name, const char *format, double d) { sim_gate(); IPhreeqc::fpunchf(name, format, d); sim_switch_point(SW_API); }
+	virtual void fpunchf(const char *name, const char *format, char *d) { sim_gate(); IPhreeqc::fpunchf(name, format, d); sim_switch_point(SW_API); }
+	virtual void fpunchf(const char *name, const char *format, int d) { sim_gate(); IPhreeqc::fpunchf(name, format, d); sim_switch_point(SW_API); }
+	virtual void fpunchf_end_row(const char *format) { sim_gate(); IPhreeqc::fpunchf_end_row(format); sim_switch_point(SW_API); }
 	struct Nest { int &n; Nest(int &x) : n(x) { n++; } ~Nest() { n--; } };
 	virtual void warning_msg(const char *s) { tick(M_WARN); Nest g(nest); IPhreeqc::warning_msg(s); }
 	virtual void error_msg(const char *s, bool stop = false) { if (armed) { cnt[M_ERR]++; } Nest g(nest); IPhreeqc::error_msg(s, stop); }
@@ -641,6 +648,10 @@ static void run_op(int client, int opidx, const Op &op)
 		c->clock_now = atol(a[1].c_str()); c->clock_inc = atol(a[2].c_str());
 		c->clock_jump_at = a.size() > 3 ? atol(a[3].c_str()) : 0; c->clock_jump = a.size() > 4 ? atol(a[4].c_str()) : 0;
 		r.push_back("ok");
+	} else if (name == "gate") {       // gate <0|1> | gate read : rendezvous before sink calls for this client
+		SimClient *c = sim_self();
+		if (a.size() > 1 && a[1] == "read") { r.push_back(itos(c->gates_passed)); r.push_back(itos(c->gates_joint)); }
+		else { c->gate_on = a.size() > 1 ? atoi(a[1].c_str()) : 1; r.push_back("ok"); }
 	} else if (name == "fbuf") { g_fbuf = atoi(a[1].c_str()); if (g_fbuf < 1) g_fbuf = 1; r.push_back("ok");
 	} else if (name == "buggify") {    // buggify <fail_first> <every> <phase> <mode> | buggify read
 #ifdef IPHREEQC_VERIF
